@@ -118,6 +118,7 @@ def run(ctx):
         lines += ['an %d 1' % es, 'dall fwd', 'destroy']
         for c in cfgs:
             cases.append(dict(exe=ex_pool[c], script='\n'.join(lines) + '\n', replay_args=['pool'], tag=('edge', lines[0], c)))
+    build.warm(cfgs, [('arena', ['h_arena.cpp'], {})])
     ex_arena = {c: build.build_harness('arena', c, ['h_arena.cpp']) for c in cfgs}
     for i in range(20 * n):
         sc = gen_arena_faults(rng)
